@@ -117,6 +117,16 @@ def run(ctx):
                          "text": text if len(text) < 3000 else None})
             ctx.evaluations += 1
             ctx.case([name, sorted(kw.items())])
+        if "#mut" not in name:
+            # the same input as an object with a history: header read with ignore_data=True, samples stored later with set_data()
+            kw = optsets[0]
+            digs, info = roundtrip.cycle(text, kw, 3, read_kw={}, assemble=True)
+            if digs is not None:
+                events.append({"op": "cycle", "prop": "C11", "digests": digs, "idxloss": info["idxloss"], "only_sss": info["only_sss"]})
+                meta.append({"input": name + " (assembled: read(ignore_data=True) + set_data)", "opts": {k: str(v) for k, v in kw.items()}, "read": {},
+                             "first_difference": info["first_difference"], "text": text if len(text) < 3000 else None})
+                ctx.evaluations += 1
+                ctx.case([name, "assembled"])
     ctx.extra["inputs"] = len(sources)
     ctx.extra["skipped_not_readable_or_writable"] = skipped
     ctx.exhaustive = False
